@@ -269,6 +269,43 @@ def run(rep, tier):
     rep.set("c09_states_checked_in_generated_grammar_programs", n_g)
     rep.set("generated_grammar_programs_run", n_p)
     hosts.append("c12 generated grammar (interpreter runs)")
+    # family D: flows added / replaced / removed while instances wait, two conversations on one runtime - every history of
+    # real RuntimeV2_x.process_events calls up to the bound, predicates on the State of every conversation after every call
+    from vf.props import c09dyn
+    dyn_tasks = c09dyn.tasks(tier)
+    if rep.seed:
+        import random
+        random.Random(rep.seed).shuffle(dyn_tasks)
+    best = {}
+    sits = {}
+    n_done = 0
+    for res in par.pmap(c09dyn.explore, dyn_tasks, chunksize=1):
+        n_done += 1
+        rep.merge_counts(res["counts"])
+        for k, v in res["situations"].items():
+            sits[k] = sits.get(k, 0) + v
+        for v in res["violations"]:
+            rank = (len(v["replay"]["history"]), v["replay"]["program"], repr(v["replay"]["history"]))
+            if v["signature"] not in best or rank < best[v["signature"]][0]:
+                best[v["signature"]] = (rank, v)
+        if n_done <= 2:
+            rep.sample(res["sample"])
+    for sig in sorted(best):
+        v = best[sig][1]
+        rep.violation(v["signature"], v["what"], v["replay"])
+    rep.set("dyn_history_partitions_planned", len(dyn_tasks))
+    rep.set("dyn_history_partitions_done", n_done)
+    rep.set("dyn_calls_by_situation", dict(sorted(sits.items())))
+    rep.set("dyn_bound", {"programs": list(c09dyn.PROGRAMS), "alphabet": c09dyn.EVENTS + ["open second conversation"],
+                          "one_conversation_history_length": min((t[3] for t in dyn_tasks if t[2] == 1), default=0),
+                          "two_conversations_history_length": min((t[3] for t in dyn_tasks if t[2] == 2), default=0)})
+    if n_done != len(dyn_tasks):
+        rep.set("exhaustive", False)
+    hosts.append("c09dyn (AddFlowsAction / RemoveFlowsAction / StartFlow through RuntimeV2_x.process_events, one and two conversations)")
+    rep.assumptions.append(
+        "family D (vf/props/c09dyn.py): worlds are copied with one deepcopy of (runtime table, states) sharing only the compiled statements; "
+        "a sample of the nodes is rebuilt from scratch and compared; a world in which a predicate failed is not expanded further; "
+        "states / transitions of family D are counted per history partition (first symbol)")
     rep.set("hosts", hosts)
     rep.set("rule", "every state reached by the host explorations; non-trivial = state with >=2 waiting heads")
     rep.set("distinct_nontrivial", rep.cov.get("c09_states_with_2plus_waiting_heads", 0))
@@ -276,6 +313,9 @@ def run(rep, tier):
 
 
 def replay(rp):
+    if rp.get("engine") == "E1-c09dyn":
+        from vf.props import c09dyn
+        return c09dyn.replay(rp)
     if rp.get("kind") == "v2dyn" or rp.get("engine") == "E1-c12-grammar":
         from vf.props import c12, c12_dyn
         print("program:\n" + rp["source"])
